@@ -53,7 +53,38 @@ def swap_adjacent(src):
                 i += 1
     out = ast.unparse(t) + "\n"; compile(out, "f", "exec"); return out
 
-X = {"invert": invert_ifs, "logging": add_logging, "swap": swap_adjacent}
+_SIGS = None
+def keywordise(src):
+    """Calls of repository functions: every positional argument after the first becomes a keyword argument (when all definitions of that name agree on the parameter names)."""
+    global _SIGS
+    if _SIGS is None:
+        _SIGS = {}
+        for rel, m in Tree('/repo').modules.items():
+            for q, f in m.funcs.items():
+                ps = [a.arg for a in f.args.posonlyargs + f.args.args]
+                is_method = "." in q and ps and ps[0] in ("self", "cls")
+                _SIGS.setdefault(f.name, set()).add((tuple(ps[1:] if is_method else ps), is_method, bool(f.args.posonlyargs or f.args.vararg)))
+    t = ast.parse(src)
+    for c in ast.walk(t):
+        if not isinstance(c, ast.Call) or any(isinstance(a, ast.Starred) for a in c.args):
+            continue
+        nm = c.func.attr if isinstance(c.func, ast.Attribute) else (c.func.id if isinstance(c.func, ast.Name) else None)
+        sigs = _SIGS.get(nm)
+        if not sigs or len({s_[0] for s_ in sigs}) != 1 or nm.startswith("__"):
+            continue
+        ps, is_method, special = next(iter(sigs))
+        if special or (is_method != isinstance(c.func, ast.Attribute)):
+            continue
+        if len(c.args) < 2 or len(c.args) > len(ps):
+            continue
+        keep = c.args[:1]
+        for i, a in enumerate(c.args[1:], start=1):
+            c.keywords.insert(i - 1, ast.keyword(arg=ps[i], value=a))
+        c.args = keep
+    ast.fix_missing_locations(t)
+    out = ast.unparse(t) + "\n"; compile(out, "f", "exec"); return out
+
+X = {"invert": invert_ifs, "logging": add_logging, "swap": swap_adjacent, "kw": keywordise}
 which = sys.argv[1]
 base = Tree('/repo'); ov = {rel: X[which](m.src) for rel, m in base.modules.items()}
 props = sys.argv[2:] or "C03 C04 C05 C06 C07 C08 C09 C11 C12 C13 C14 C15 C16 C17 C18 C19 C20".split()
